@@ -187,6 +187,11 @@ func (g *c07Gen) doc() J {
 	schemas["FixG"] = J{"type": "object", "properties": fixG}
 	// an array of uint8 items is a []uint8, which Go treats as []byte
 	schemas["FixI"] = J{"type": "object", "properties": J{"octets": J{"type": "array", "items": J{"type": "integer", "format": "uint8"}}, "words": J{"type": "array", "items": J{"type": "integer", "format": "uint16"}}}}
+	// a base whose required list has three entries and a composition, declared before it, that makes one more of its
+	// members required: the base itself still has that member optional
+	schemas["FixBase"] = J{"type": "object", "required": []interface{}{"id", "name", "zed"},
+		"properties": J{"id": J{"type": "integer"}, "name": J{"type": "string"}, "zed": J{"type": "string"}, "age": J{"type": "integer"}, "bio": J{"type": "string"}}}
+	schemas["A0Derived"] = J{"allOf": []interface{}{J{"$ref": "#/components/schemas/FixBase"}, J{"type": "object", "required": []interface{}{"age", "bio"}, "properties": J{"extra": J{"type": "string"}}}}}
 	// a union with optional members of its own, nullable and not: an absent one that is not nullable must stay absent
 	schemas["FixH"] = J{"type": "object", "required": []interface{}{"id"},
 		"properties": J{"id": J{"type": "integer"}, "title": J{"type": "string"}, "note": J{"type": "string", "nullable": true}, "size": J{"type": "integer", "format": "int64"}},
@@ -261,6 +266,27 @@ func (g *c07Inst) value(s J, depth int) interface{} {
 			if o, ok := v.(map[string]interface{}); ok {
 				for k, v := range o {
 					out[k] = v
+				}
+			}
+		}
+		// a member may require what another member declares: a valid instance has it
+		for _, m := range all {
+			rl, _ := deref(m.(J))["required"].([]interface{})
+			for _, x := range rl {
+				name := fmt.Sprint(x)
+				if _, has := out[name]; has {
+					continue
+				}
+				for _, m2 := range all {
+					if ps, ok := deref(m2.(J))["properties"].(J); ok {
+						if sch, ok := ps[name].(J); ok {
+							out[name] = g.value(sch, depth-1)
+							for try := 0; out[name] == nil && try < 10; try++ { // present with a value
+								out[name] = g.value(sch, depth-1)
+							}
+							break
+						}
+					}
 				}
 			}
 		}
@@ -368,6 +394,15 @@ func (g *c07Inst) value(s J, depth int) interface{} {
 				g.mark("extra-members")
 				out["extra_1"] = r.Pick([]string{"x", "y"})
 				out["extra_2"] = []interface{}{json.Number("1"), map[string]interface{}{"deep": true}}
+				// an additional member whose name differs from a declared one only in the case of its letters is
+				// another member
+				for _, name := range SortedKeys(props) {
+					if up := strings.ToUpper(name); up != name && props[up] == nil && r.Chance(50) {
+						g.mark("extra-member-differing-in-case-only")
+						out[up] = "case variant of " + name
+						break
+					}
+				}
 			}
 		case J:
 			if !g.noExtras && r.Chance(70) {
